@@ -76,7 +76,7 @@ def shard_text(cases):
 def switch_types():
     """case types of Filter.Filter in the current source tree."""
     src = open(os.path.join(vlib.REPO, "agent/structs/aclfilter/filter.go"), encoding="utf-8").read()
-    m = re.search(r"func \(f \*Filter\) Filter\(subject any\) \{\n(.*?)\n\}\n", src, re.S)
+    m = re.search(r"func \(\w+ \*Filter\) Filter\(\w+ (?:any|interface\{\})\) \{\n(.*?)\n\}\n", src, re.S)
     if not m:
         return None
     out = []
